@@ -129,7 +129,9 @@ func rebase(ref *Ref, v *url.URL, notEqual bool) (Ref, bool) {
 
 	newBase.Fragment = u.Fragment
 
-	if strings.HasPrefix(u.Path, docPath) {
+	if u.Path == docPath || strings.HasPrefix(u.Path, strings.TrimSuffix(docPath, "/")+"/") {
+		// same document, or a path below it: a sibling whose name merely starts like the document
+		// (doc.json vs doc.json2) is not that
 		newBase.Path = strings.TrimPrefix(u.Path, docPath)
 	} else {
 		newBase.Path = strings.TrimPrefix(u.Path, v.Path)
